@@ -27,4 +27,24 @@ CHECKS = {
   "note": TB,
   "technique": "property-based testing (rapid) with bare-vs-qualified predicates and go/types resolution",
  },
+ "C01": {
+  "text": "Round-trip search: every .go file of the installed toolchain's src tree (thorough: both installed toolchains, ~14.5k files / ~220k declarations) plus grammar-generated programs is translated construct by construct into the documented DSL element, rendered, re-parsed and compared node-by-node with the source tree. No counter-example among them; absence for all Go programs is not established (bounded depth/arity, files needing type information are skipped and counted).",
+  "note": TB + " The translator is part of the check: a mismatch is only reported when the independent reference renderer reproduces the source from the same recipe.",
+  "technique": "round-trip property over a real-program corpus and generated programs (go/ast -> DSL -> bytes -> go/ast equality)",
+ },
+ "C13": {
+  "text": "Exhaustive enumeration of every list construct x arity 0..8 (thorough 0..12) x every subset of null positions x Empty() position, rapid-generated larger lists, and the null policy applied to all list constructs of real programs (metamorphic: output with injected null-like items must equal output without, byte for byte; remaining items exactly, in order).",
+  "note": TB + " Null-like items are inserted only as list items, never into call chains, never beside a Dict.",
+  "technique": "metamorphic property (null injection) by exhaustive enumeration, rapid generation and corpus programs",
+ },
+ "C18": {
+  "text": "Exhaustive: every package directory of GOROOT/src rendered alone (with and without prefix) and checked with the go/types resolution oracle against the package clause on disk; generated colliding sets; one gennames run compared row by row with the package clauses.",
+  "note": TB + " Real names come from go/parser over GOROOT/src, independent of `go list`.",
+  "technique": "exhaustive enumeration of std packages + property-based testing (rapid) with a go/types oracle; differential check of gennames output against package clauses",
+ },
+ "C19": {
+  "text": "Enumerated cross product (5.4k cases) of C introductions x preamble lists x other imports x prefix x hints x reference order, plus generated preamble texts: parsed output must have exactly one unnamed import of \"C\", all C references qualified by C, and with a preamble an import declaration of its own whose doc comment is the preamble (text compared on the NoFormat twin) ending on the line directly above.",
+  "note": TB + " Raw-form preamble texts are well-formed comments.",
+  "technique": "exhaustive cross-product enumeration + property-based testing (rapid) over preamble texts with go/parser / go/types structure oracles",
+ },
 }
